@@ -10,8 +10,8 @@ C17 line protocol.
   embed <N> <uses> <owns> <N'> <uses'> <owns'> <f> <x> <y> → `hyp= mono= edge= target=`: hypotheses of
         `used_mono_embed` (`embedHyp`), Used g ⊆ Used g' along f, is f x → f y a use edge of g',
         is f y Used in g'
-  build <events…>  (u<used>.<by> | s<obj>.<owner>) → the graph built by the builder model:
-        `<N> <uses> <owns> <objects in creation order> <verdicts>`
+  build <events…>  (u<used>.<by> | s<obj>.<owner>) → what the builder model (Build.lean) makes of
+        the calls: `<objects in creation order> <their verdicts U/Q/X>`
   merge <k> then per variant: <allowed 0|1> <nUsed> keys… <nUnused> keys…
         key = hex(pkg)/hex(base)/line/hex(name)
         → reported keys in emission order, space separated, or `-`
@@ -110,10 +110,8 @@ def stepLine (line : String) : String :=
     | some es =>
       let s := build Cfg.all es
       let g := s.graph
-      let us := (List.range g.N).flatMap fun a => (g.usesOf a).map fun b => s!"{a}>{b}"
-      let os := (List.range g.N).flatMap fun a => (g.ownsOf a).map fun b => s!"{a}>{b}"
-      let sh := fun (l : List String) => if l.isEmpty then "-" else ",".intercalate l
-      s!"{g.N} {sh us} {sh os} {sh (s.objs.map toString)} {showVerdicts g}"
+      if s.objs.isEmpty then "- -" else
+      s!"{",".intercalate (s.objs.map toString)} {showVerdicts g}"
     | none => "bad-op"
   | "merge" :: k :: rest =>
     match k.toNat? with
